@@ -53,6 +53,8 @@ struct Slot {
     compressed: bool,
     msg: Vec<u8>,
     hash: String,
+    /// Some(digest) when the slot was signed through the pre-hashed entry point with caller-chosen bytes
+    raw: Option<Vec<u8>>,
     r: Vec<u8>,
     s: Vec<u8>,
     sig: Signature,
@@ -86,7 +88,7 @@ impl Scenario for EcdsaNet {
             real: &["bsv::ECDSA::{sign_with_deterministic_k, sign_with_random_k (OsRng behind the cfg(bsv_verif) hook), sign_with_k, sign_digest_with_deterministic_k, verify_digest, verify_hashbuf}", "bsv::PrivateKey::sign_message", "bsv::Signature::{verify_message, r, s}", "bsv::PublicKey::{verify_message, is_valid_message}", "bsv::ECDH::derive_shared_key"],
             stub: &["RefVerifier: textbook ECDSA verification over k256 group arithmetic", "RefSigner: RFC 6979 HMAC-SHA256 (and the section 3.6 additional-data variant over SHA-256 or double SHA-256) nonce generation + textbook signing + low-S, written against sha2 only", "entropy source = script installed through the hook", "S7 (bit-for-bit RFC 6979 equality) and the reference half of ECDH are reference-model oracles without a simulator dimension of their own; they ride in this world because it already exists"],
             assumptions: &["reversed-nonce mode is modelled as RFC 6979 with the byte-reversed digest as h1; the message scalar is always the big-endian digest", "k256's scalar/point arithmetic is trusted by both sides"],
-            required_probes: &["sign_det", "sign_det_reversed", "sign_random_k", "sign_with_k", "sign_digest", "sign_message", "random_k_equals_reference", "entropy_isolation_checked", "mispaired_msg", "mispaired_hash", "mispaired_key", "replayed", "ecdh", "key_near_n", "uncompressed_key"],
+            required_probes: &["sign_det", "sign_det_reversed", "sign_random_k", "sign_with_k", "sign_digest", "sign_message", "random_k_equals_reference", "entropy_isolation_checked", "mispaired_msg", "mispaired_hash", "mispaired_key", "replayed", "ecdh", "key_near_n", "uncompressed_key", "sign_raw_digest", "raw_digest_ge_n"],
             quick_runs: 20000,
             thorough_runs: 1500000,
             rlimit_as: 4 << 30,
@@ -110,7 +112,33 @@ impl Scenario for EcdsaNet {
                         _ => rng.range(0, 200) as usize,
                     };
                     let (script, ekind) = entropy_kind(rng);
-                    events.push(json!({"op": "sign", "entry": entry, "key": rng.pick(&keys).clone(), "compressed": rng.chance(2, 3), "hash": *rng.pick(&["sha256", "sha256d"]),
+                    // the pre-hashed entry point accepts any 32 bytes, including values at and above the group order
+                    let raw = if entry == "digest" && rng.chance(1, 2) {
+                        Some(match rng.below(7) {
+                            0 => rf::N_HEX.to_string(),
+                            1 => "ff".repeat(32),
+                            2 => N_MINUS_1.to_string(),
+                            3 => "00".repeat(32),
+                            4 => {
+                                let mut b = hex::decode(rf::N_HEX).unwrap();
+                                b[31] = b[31].wrapping_add(1 + rng.below(50) as u8);
+                                hx(&b)
+                            }
+                            5 => {
+                                let mut b = rng.bytes(32);
+                                b[0] = 0xff;
+                                b[1] = 0xff;
+                                b[2] = 0xff;
+                                b[3] = 0xff;
+                                for k in 4..15 { b[k] = 0xff; }
+                                hx(&b)
+                            }
+                            _ => hx(&rng.bytes(32)),
+                        })
+                    } else {
+                        None
+                    };
+                    events.push(json!({"op": "sign", "entry": entry, "raw_digest": raw, "key": rng.pick(&keys).clone(), "compressed": rng.chance(2, 3), "hash": *rng.pick(&["sha256", "sha256d"]),
                         "msg": hx(&rng.bytes(mlen)), "k": gen_key(rng), "entropy": hx(&script), "ekind": ekind, "entropy2": hx(&rng.bytes(32))}));
                     slots += 1;
                 }
@@ -185,7 +213,17 @@ impl Scenario for EcdsaNet {
                             continue;
                         }
                     };
-                    let digest = digest_of(&hash, &msg);
+                    let raw: Option<Vec<u8>> = if entry == "digest" { req.get("raw_digest").and_then(|x| x.as_str()).and_then(|h| hex::decode(h).ok()).filter(|d| d.len() == 32) } else { None };
+                    let digest = match &raw {
+                        Some(d) => {
+                            ctx.probe("sign_raw_digest");
+                            if d.as_slice() >= hex::decode(rf::N_HEX).unwrap().as_slice() {
+                                ctx.probe("raw_digest_ge_n");
+                            }
+                            d.clone()
+                        }
+                        None => digest_of(&hash, &msg),
+                    };
                     let he = hash_enum(&hash);
                     verif_hooks::install_entropy(&script, 0xfeed);
                     let res = guard(|| match entry.as_str() {
@@ -256,7 +294,7 @@ impl Scenario for EcdsaNet {
                                 return;
                             }
                         }
-                        let ok_lib = guard(|| ECDSA::verify_digest(&msg, pk, &sig, he).unwrap_or(false)).unwrap_or(false);
+                        let ok_lib = if raw.is_some() { guard(|| ECDSA::verify_hashbuf(&digest, pk, &sig).unwrap_or(false)).unwrap_or(false) } else { guard(|| ECDSA::verify_digest(&msg, pk, &sig, he).unwrap_or(false)).unwrap_or(false) };
                         let ok_ref = rf::ecdsa_verify(&pk_bytes, &digest, &r, &s);
                         if !ok_lib || !ok_ref {
                             if ctx.violate("reject", format!("own-signature-does-not-verify:{} {}", entry, hash), format!("signature from {} ({}, {} key) over a {}-byte message: library verifier={}, textbook verifier={}", entry, hash, if compressed { "compressed" } else { "uncompressed" }, msg.len(), ok_lib, ok_ref)) {
@@ -317,7 +355,7 @@ impl Scenario for EcdsaNet {
                         continue;
                     }
                     requests.push(req.clone());
-                    slots.push(Slot { key, compressed, msg, hash, r, s, sig });
+                    slots.push(Slot { key, compressed, msg, hash, raw, r, s, sig });
                 }
                 "deliver" => {
                     let i = jusize(ev, "slot");
@@ -327,7 +365,12 @@ impl Scenario for EcdsaNet {
                     }
                     let sl = &slots[i];
                     let pairing = jstr(ev, "pairing");
-                    let verifier = jstr(ev, "verifier");
+                    // a slot signed over caller-chosen digest bytes can only be checked by the pre-hashed verifier
+                    let verifier = if sl.raw.is_some() { "verify_hashbuf" } else { jstr(ev, "verifier") };
+                    if sl.raw.is_some() && (pairing == "other_msg" || pairing == "other_hash") {
+                        ctx.skip();
+                        continue;
+                    }
                     let mut msg = sl.msg.clone();
                     let mut hash = sl.hash.clone();
                     let mut vkey = sl.key.clone();
@@ -359,6 +402,23 @@ impl Scenario for EcdsaNet {
                         }
                         _ => {}
                     }
+                    // algebraic degenerate case, not a defect: for a message scalar of 0 a signature by d is also a
+                    // valid signature by n-d (u1 = 0, and -Q yields the same x); the statement cannot mean this pair
+                    if pairing == "other_key" {
+                        let z = rf::scalar_reduced(&match &sl.raw {
+                            Some(d) => d.clone(),
+                            None => digest_of(&hash, &msg),
+                        });
+                        let neg = match (rf::scalar_exact(&vkey), rf::scalar_exact(&sl.key)) {
+                            (Some(a), Some(b)) => a == -b,
+                            _ => false,
+                        };
+                        if bool::from(elliptic_curve::Field::is_zero(&z)) && neg {
+                            ctx.probe("skipped_zero_digest_negated_key");
+                            ctx.skip();
+                            continue;
+                        }
+                    }
                     // entry points fixed to SHA-256 can only express the hash choice SHA-256
                     let fixed_sha256 = matches!(verifier, "sig_verify_message" | "pk_verify_message" | "is_valid_message");
                     if fixed_sha256 {
@@ -376,7 +436,10 @@ impl Scenario for EcdsaNet {
                             continue;
                         }
                     };
-                    let digest = digest_of(&hash, &msg);
+                    let digest = match &sl.raw {
+                        Some(d) => d.clone(),
+                        None => digest_of(&hash, &msg),
+                    };
                     let he = hash_enum(&hash);
                     let sig = &sl.sig;
                     let got = guard(|| match verifier {
